@@ -55,6 +55,20 @@ def c13a_matches(ck, prog):
         return
     cs = decision.conjuncts(e)
     text = decision.show(e)
+    # the same conjunction as one equality of pairs: (self.username, self.password) == (username, password)
+    if len(cs) == 1 and cs[0][0] == "leaf":
+        m = re.fullmatch(r"eq\(tuple\{(.*),(.*)\},tuple\{(.*),(.*)\}\)", cs[0][1])
+        teq = [c for c in f.calls() if c.name == "eq"]
+        if m and len(teq) == 1 and re.search(r"core::tuple::<impl core::cmp::PartialEq for \(", teq[0].callee or "") and [re.sub(r"\s", "", t) for t in teq[0].targs[:2]] == ["(&str,&str)", "(&str,&str)"]:
+            l1, l2, r1, r2 = m.groups()
+            cfg = r"(as_ref|deref|as_str)\(arg1\.%s\)"
+            okp = (re.fullmatch(cfg % "username", l1) and re.fullmatch(cfg % "password", l2) and (r1, r2) == ("arg2", "arg3")) or \
+                  (re.fullmatch(cfg % "username", r1) and re.fullmatch(cfg % "password", r2) and (l1, l2) == ("arg2", "arg3"))
+            others = [c for c in f.calls() if c.name not in ("eq", "as_ref", "deref", "as_str")]
+            ok = bool(okp) and not others
+            ck.ob("C13-a DECISION matches", "matches", ok, f.loc(None), "" if ok else "matches() computes `%s`: the pair equality does not compare (self.username, self.password) with (username, password)" % text,
+                  how="decision tree of matches() = %s (equality of pairs of &str: both components equal)" % text)
+            return
     want = {"username": False, "password": False}
     helpers = set()
     ok = len(cs) == 2
@@ -252,7 +266,9 @@ def c13a_gate(ck, prog):
 
 def c13a_credential(ck, prog):
     f = prog.one(r"basicauth::(_::)?basic_credential_of$")
-    bodies = [f] + prog.descendants(f.key)
+    # closures (an immediately called one, or those handed to and_then / map) read in place
+    fv = prog.flattened(f, r"strip_prefix$|base64_decode_utf8$", combinators=True)
+    bodies = [fv] if fv is not f else [f] + prog.descendants(f.key)
     sp = [c for g in bodies for c in g.calls_to(r"^core::str::<impl str>::(strip_prefix|trim_start_matches|starts_with|split_at|get|trim|trim_start)$")]
     ok = len(sp) == 1 and sp[0].name == "strip_prefix"
     lit = None
@@ -272,6 +288,12 @@ def c13a_credential(ck, prog):
         g = dec[0].fn
         src = decision.describe_deep(g, dec[0].args[0], 6)
         ok2 = "strip_prefix" in src
+        if not ok2:
+            # through the Option the first and_then produced: every value the operand can hold
+            lv = paths.leaf_values(g, dec[0].args[0]) if dec[0].args[0][0] in ("c", "m") else []
+            ok2 = bool(lv) and all(l[0] == "call" and l[1].name == "strip_prefix" for l in lv)
+            if ok2:
+                src = "strip_prefix(..)@Some.0 (through and_then)"
         ck.ob("C13-a credential", "base64-arg", ok2, g.loc(dec[0].sp), "" if ok2 else "base64 input is `%s`, not the text after the `Basic ` prefix" % src, how=src)
         d = prog.one(r"^ohkami::util::base64_decode_utf8$")
         d = prog.inlined(d, 1, r"Engine>?::decode$|engine::Engine::decode$")     # may go through base64_decode()
